@@ -110,6 +110,7 @@ func (ex *Exec) pushDeferred(st *State, d deferred) {
 	if ci == nil {
 		ex.unsupported(st, "deferred call of unknown function")
 	}
+	ex.u.inlined[ex.u.displayName(ci.fn)] = true
 	nf := &Frame{fn: ci.fn, vals: map[ssa.Value]SVal{}, locals: map[string]SVal{}, variant: map[*ssa.BasicBlock][]*Term{}, isDefer: true, contract: ex.u.contractFor(ci.fn)}
 	for i, fv := range ci.fn.FreeVars {
 		nf.vals[fv] = ci.bindings[i]
